@@ -1,4 +1,4 @@
-import DEvo.Ser.Py
+import DEvo.Ser.PyRoundTrip
 import DEvo.Generated.Tables
 
 /-! # C13 — hinted evolution text is loadable and means what the hint meant -/
@@ -60,6 +60,43 @@ theorem C13_fixed_witnesses :
   refine ⟨by decide, by decide, by decide, by decide, by decide, by decide, by decide⟩
 
 def lowerName : V := .obj "django.db.models.functions.text.Lower" (.cons (.str "name") .nil) .nil
+
+/-- the configuration extracted from the source is the one the round-trip theorem is proved for -/
+theorem C13_cfg_is_current : cfg = cur := by decide
+
+/-- **Round trip.**  For every value in `Good` — literals, lists/tuples/dicts of good values,
+`django.db.models` enums and deconstructible objects with good arguments, combined expressions
+with any of Django's eleven connectors and arbitrarily nested operands, and `Q` trees of any depth
+whose connectors are AND/OR/XOR and whose nested `Q` children are ones that Django's own `&`, `|`,
+`^` keep as one element (negated, or of another connector with several children) — the text
+written by `serialize_to_python`, read the way Python reads it and evaluated with Django's
+operators, is that value again.  (No bound on size or depth: mutual structural induction.) -/
+theorem C13_roundtrip (v : V) (h : Good v = true) : roundTrip cfg v = .value v := by
+  rw [C13_cfg_is_current]
+  obtain ⟨p, hp, ho⟩ := good_toPy v h
+  unfold roundTrip
+  simp only [hp, ho.cut, ho.syn, Bool.not_true, Bool.false_eq_true, if_false]
+  have hk : cur.keepSubmodules = true := rfl
+  rw [hk]
+  unfold reparse
+  rw [ho.ev]
+
+/-- non-vacuity: `Good` holds of non-trivial values —
+`(Q(a=1) | Q(b=2)) & ~Q(a=1)`, `Q(a=1) ^ Q(b=2)`, `Q(Q(a=1), _connector='OR')`, `((a + b) * c) % a`,
+`a.bitxor(b)`, `[{'k': ~(Q(a=1) | Q(b=2))}, Deferrable.DEFERRED]` -/
+example : Good (.q none false (.cons (.q (some "OR") false (.cons (kv "a" (.int 1)) (.cons (kv "b" (.int 2)) .nil)))
+      (.cons (.q none true (.cons (kv "a" (.int 1)) .nil)) .nil))) = true := by decide
+example : Good qXor = true := by decide
+example : Good (.q (some "OR") false (.cons qa .nil)) = true := by decide
+example : Good (comb "%%" (comb "*" (comb "+" fA fB) fC) fA) = true := by decide
+example : Good (comb "#" fA fB) = true := by decide
+example : Good (.list (.cons (.dict (.cons "k" (.q (some "OR") true (.cons (kv "a" (.int 1)) (.cons (kv "b" (.int 2)) .nil))) .nil))
+    (.cons (.enum "django.db.models.constraints.Deferrable" "DEFERRED") .nil))) = true := by decide
+
+/-- …and `Good` is not all values: the shapes of findings F49 and F50 are outside it -/
+example : Good (.obj "myapp.expressions.Double" (.cons fA .nil) .nil) = false := by decide
+example : Good (.q none false (.cons (.q none false (.cons (kv "a" (.int 1)) (.cons (kv "b" (.int 2)) .nil)))
+    (.cons (kv "c" (.int 3)) .nil))) = false := by decide
 
 /-- F49 (repaired for django.db.models sub-modules): `Lower` lives in django.db.models.functions.text;
 `models.Lower` does not exist -/
